@@ -21,5 +21,6 @@ func checkC11(c *Ctx, r *Report) {
 	ruleLastInterval(c, r)
 	ruleResolvedDefault(c, r, "O-FALLBACK")
 	ruleNoMdatHeaderConstant(c, r, "W-MDATHDR")
+	requireFixture(r, "W-MDATHDR", "payloadStartWrong", func(fc *Ctx, s *Report) { ruleNoMdatHeaderConstant(fc, s, "W-MDATHDR") })
 	ruleIndependentEnds(c, r, "O-INDEP", func(f *ssa.Function) bool { return strings.HasPrefix(SSAFuncName(f), "examples/segmenter.") }, 1)
 }
